@@ -18,14 +18,18 @@ ASSUMPTIONS = ['Iterator::position returns the first matching index; Option::or_
 ADD = 'bucket::Bucket::add_node'
 
 
-def pred_kind(ctx, res, closure_term):
+def pred_kind(ctx, res, closure_term, with_captures=False):
     """classify a slot predicate closure: 'same' (== offered node), 'bad' (status == Bad), 'lower' (status < offered status)"""
     if not (isinstance(closure_term, tuple) and closure_term[0] == 'closure'):
         return 'unknown'
     b = ctx.body(closure_term[1])
     res.touch(b)
-    s = Sym(b)
-    s.run()
+    if with_captures:
+        # second attempt with the captured values substituted (a predicate closure handed to a search helper)
+        b, s = lib.closure_sym(ctx, closure_term, res)
+    else:
+        s = Sym(b)
+        s.run()
     cps = s.complete_paths()
     if len(cps) == 1:
         r = cps[0].ret
@@ -53,6 +57,15 @@ def pred_kind(ctx, res, closure_term):
                 and root_of(strip_transparent(a[2][0]))[1] == 2 and 'new_node_status' in fmt(b2):
             # the captured value is the offered node's status (checked at the capture site by the caller)
             return 'lower'
+        if rel == 'lt' and truth is True and a[0] == 'call' and a[1] == 'node::Node::status' and is_param(root_of(strip_transparent(a[2][0]))) \
+                and root_of(strip_transparent(a[2][0]))[1] == 2 and root_of(strip_transparent(a[2][0]))[2] != 'new_node' and with_captures \
+                and isinstance(b2, tuple) and b2[0] == 'call' and b2[1] == 'node::Node::status' and is_param(strip_transparent(b2[2][0]), 'new_node'):
+            ctx.__dict__['_c08_direct'] = True      # compared with new_node.status() itself
+            return 'lower'
+    if not with_captures and closure_term[2]:
+        k = pred_kind(ctx, res, closure_term, with_captures=True)
+        if not k.startswith('unknown'):
+            return k
     return 'unknown:' + (fmt(cps[0].ret)[:80] if cps else '?')
 
 
@@ -65,6 +78,8 @@ def search_spec(ctx, res, t, whole_only=False, loops=None):
             return [loops.get(nxt[3], 'unknown-loop')]
     if t[0] == 'field' and t[2] == '0' and t[1][0] == 'downcast':
         t = strip_transparent(t[1][1])
+    if t[0] == 'call' and t[1].endswith('Try>::branch') and len(t[2]) == 1:
+        t = strip_transparent(t[2][0])        # `search?`: Continue = found
     if t[0] == 'call' and t[1].split('::')[-1] in ('position', 'find'):
         it = t[2][0]
         while isinstance(it, tuple) and it[0] in ('ref', 'deref'):
@@ -197,6 +212,11 @@ def rule_bucket_add(ctx, res):
             if rel == 'variant' and a[0] == 'call' and a[1].split('::')[-1] == 'next' and a[3] in loops:
                 if option_is_some(b2) is False:
                     none_searches.append(loops[a[3]])
+            elif rel == 'variant' and a[0] == 'call' and a[1].endswith('Try>::branch'):
+                # `search?` : Break (1) = nothing found
+                spec = search_spec(ctx, res, a)
+                if b2 == 1:
+                    none_searches.extend(spec)
             elif rel == 'variant' and a[0] == 'call':
                 spec = search_spec(ctx, res, a)
                 if option_is_some(b2) is False:
@@ -267,7 +287,7 @@ def rule_bucket_add(ctx, res):
     for body in ctx.f.body_list:
         if body.path.startswith(ADD + '::{closure') and body.kind == 'closure':
             pass
-    caps_ok = direct_status
+    caps_ok = direct_status or bool(ctx.__dict__.get('_c08_direct'))
     for p in s.paths:
         for e in p.effects:
             if e[0] == 'call' and e[1] and (e[1].endswith('::or_else') or e[1].endswith('::position')):
